@@ -999,6 +999,9 @@ class G:
             t.append(nm)
             if not attrs and not simple and self.p(0.25):
                 t += ["(", self.ch(["10", "n", "0:9", "*"][:2]), ")"]
+            if kind == "character" and "*" not in ts and "::" in t and self.p(0.2):
+                t += ["*", "(", "n", "+", "1", ")"]
+                self.hit("d:char-length-paren")
             if (is_param or (self.p(0.3) and not no_init and "::" in t)) and not intent:
                 t.append("=")
                 if kind == "integer":
